@@ -160,6 +160,7 @@ def run_case(case):
         res["violations"].append({"kind": "foreign-rows", "mech": "C04|rows-with-unknown-id",
                                   "detail": "rows attributed to ids %s that were never declared" % foreign})
     pending = {}
+    extra_seen = {}
     npoints = 0
     for it in range(case["K"]):
         w = view.random_point(rng)
@@ -229,7 +230,10 @@ def run_case(case):
                                           it, len(un_e))})
             bad = True
         matched_rows = {sys_eq[i][2] for i in range(len(sys_eq))} - {sys_eq[i][2] for i in un_o}
-        extra = sorted({r for k, v, r in sysat if r not in matched_rows and (pattern[r] & traj_cols)})
+        for r_ in {r for k, v, r in sysat if r not in matched_rows and (pattern[r] & traj_cols)}:
+            extra_seen[r_] = extra_seen.get(r_, 0) + 1
+        # (two points: a near-collision inside the matching tolerance can pair a dynamic residual with a grid row)
+        extra = sorted(r_ for r_, n_ in extra_seen.items() if n_ >= 2)
         if extra:
             res["violations"].append({
                 "kind": "undeclared-restriction", "mech": "C04|undeclared-restriction",
